@@ -695,11 +695,20 @@ func (e *Env) callExpr(n *ast.CallExpr) (Val, types.Type) {
 			ret = SBool
 		case "utf8.RuneCountInString":
 			return UF("runecount", SInt, args...), intT
+		case "math.Round", "math.Ceil", "math.Floor", "math.Abs":
+			return UF("lib!"+name, SF64, args...), types.Typ[types.Float64]
 		}
 		if ret == SBool {
 			return UF("lib!"+name, ret, args...), boolT
 		}
 		return UF("lib!"+name, ret, args...), types.Typ[types.String]
+	case "f2i":
+		// f2i(x): Go's conversion int64(x) of a float (the engine's uninterpreted conversion)
+		v, _ := e.eval(n.Args[0])
+		return UF("f2i", SInt, e.x.scalar(v)), e.x.ld.universe("int64")
+	case "i2f":
+		v, _ := e.eval(n.Args[0])
+		return UF("i2f", SF64, e.x.scalar(v)), types.Typ[types.Float64]
 	case "same":
 		// same(a, b): identical values (for floats: the same IEEE value, not the == operator)
 		a, ta := e.eval(n.Args[0])
